@@ -58,7 +58,7 @@ theorem sends_while_locked_sites :
   · exact SkeletonTie.withCreate_dead
 
 theorem protocol_skeleton_ok :
-    SkeletonTie.protocolFns.all (fun n => SkeletonTie.lookupFn n Gen.skeleton == SkeletonTie.expectedOf n &&
+    SkeletonTie.protocolFns.all (fun n => SkeletonTie.viewOf n (SkeletonTie.lookupFn n Gen.skeleton) == SkeletonTie.viewOf n (SkeletonTie.expectedOf n) &&
       (SkeletonTie.expectedOf n).isSome) = true := SkeletonTie.protocol_skeleton_ok
 
 /-! ### the pre-repair protocol (finding F1): an error pending under the lock while the file is open -/
